@@ -294,11 +294,16 @@ def isolate_crash(pid, seed, tier, tag, log, crash_output):
     if rc != 0:
         return None
     cases = read_case_file(dry)
-    def crashes(sub):
+    def crashes(sub, tries=3):
+        # a crash that needs a particular interleaving does not happen on every run: try a few times
         a, b = os.path.join(d, tag + ".bis.in"), os.path.join(d, tag + ".bis.out")
         write_case_file(a, sub)
-        rc, out, _ = sh([HARNESS, "exec", pid, "-in", a, "-out", b], env=goenv(), timeout=600)
-        return rc != 0, out
+        out = ""
+        for _ in range(tries):
+            rc, out, _ = sh([HARNESS, "exec", pid, "-in", a, "-out", b], env=goenv(), timeout=600)
+            if rc != 0:
+                return True, out
+        return False, out
     bad, out = crashes(cases)
     if not bad:
         return None
@@ -310,6 +315,19 @@ def isolate_crash(pid, seed, tier, tag, log, crash_output):
         else:
             cases = cases[len(cases) // 2:]
     c = cases[0]
+    # within the case: drop ops while the process still dies (the ops of a batch case run concurrently)
+    ops = list(c["ops"])
+    i = 0
+    while len(ops) > 1 and i < len(ops):
+        cand = ops[:i] + ops[i + 1:]
+        b, o2 = crashes([{"id": c["id"], "variant": c["variant"], "ops": cand}], tries=2)
+        if b:
+            ops, out = cand, o2
+        else:
+            i += 1
+        if len(c["ops"]) > 40:
+            break
+    c = {"id": c["id"], "variant": c["variant"], "ops": ops}
     tail = " ".join(out.strip().split("\n")[:3])[:300].replace("\t", " ")
     path = os.path.join(d, tag + ".crash.ops")
     with open(path, "w") as f:
